@@ -335,3 +335,12 @@ Theorem C14_max_pow2_binary64 : forall k p s xs xs', max_new FOps p = Ok s -> Fo
   length (res_outs (max_next FOps) s xs) = length xs ->
   Forall2 (sninf k) (res_outs (max_next FOps) s xs) (res_outs (max_next FOps) s xs').
 Proof. exact max_pow2_covariant. Qed.
+
+(* ... and FastStochastic over whole streams (scalar path): UNCHANGED by 2^k — Minimum and Maximum scale, `min == max` does not change
+   (C14_eqb_pow2_binary64), %K is the same value *)
+From TA Require Import Proofs.FloatScaleFast.
+Theorem C14_eqb_pow2_binary64 : forall k a b a' b', scaled k a a' -> scaled k b b' -> (a' =? b')%float = (a =? b)%float.
+Proof. exact eqb_scaled. Qed.
+Theorem C14_fast_stream_pow2_binary64 : forall k xs xs' s s', rel_fast k s s' -> Forall2 (scaled k) xs xs' -> fast_run_ok k s xs ->
+  Forall2 (scaled 0) (fast_outs FOps s xs) (fast_outs FOps s' xs').
+Proof. exact fast_stream_pow2. Qed.
